@@ -210,6 +210,10 @@ def run_config(ctx, cfg):
     r1 = state.rho(space[0], space[D - 1])         # single element
     ctx.holds("rho/single-shape", tuple(r1.shape) == (2,), str(tuple(r1.shape)))
     ctx.eq("rho/single", r1._arr[0] + I * r1._arr[1], RS[0][D - 1], z3_confirm=False)
+    for i in range(D):                             # every pair of basis states in the single-element call form
+        for j in range(D):
+            rij = state.rho(space[i], space[j])
+            ctx.eq("rho/single element == partial trace[%d,%d]" % (i, j), rij._arr[0] + I * rij._arr[1], RS[i][j], z3_confirm=False)
     rdiag = state.rho(space, expand=False)         # [probability, 0]
     prob = state.probability(space)
     ctx.holds("rho/expand-False-vp-None-shape", tuple(rdiag.shape) == (2, D))
